@@ -9,10 +9,10 @@ From Refinery Require Gen.GenC10.
    "<= 1 keeps all", "<=" comparison, 4 hash bytes, rate returned unchanged). *)
 Theorem C10_source_shape :
   GenC10.det_max = 4294967295 /\ GenC10.det_conv_bits = 32 /\ GenC10.det_always_le = 1 /\
-  GenC10.det_start_guarded = true /\
+  GenC10.det_start_guards_wide_rates = true /\
   GenC10.det_cmp_le = true /\ GenC10.det_hash_bytes = 4 /\
   GenC10.det_rate_from_config = true /\ GenC10.det_returns_rate = true /\
-  GenC10.det_hash_of_traceid_and_salt = true /\ GenC10.det_get_shape = true /\
+  GenC10.det_hash_of_traceid_and_salt = true /\
   GenC10.det_max = DET_MAX /\ GenC10.det_conv_bits = DET_BITS /\ GenC10.det_always_le = DET_ALWAYS /\
   GenC10.det_cmp_le = DET_LE /\ GenC10.det_hash_bytes = DET_HASH_BYTES /\ GenC10.det_salt = DET_SALT.
 Proof. exact gen_det_ok. Qed.
@@ -21,7 +21,7 @@ Print Assumptions C10_source_shape.
 Theorem C10_source_shape_stress :
   GenC10.stress_max = 18446744073709551615 /\ GenC10.stress_zero_becomes = 1 /\
   GenC10.stress_always_le = 1 /\ GenC10.stress_cmp_le = true /\
-  GenC10.stress_rate_shape = true /\ GenC10.stress_bound_shape = true /\ GenC10.stress_get_shape = true /\
+  GenC10.stress_bound_is_quotient = true /\ GenC10.stress_hash_of_traceid_and_seed = true /\
   GenC10.stress_max = STRESS_MAX /\ GenC10.stress_zero_becomes = STRESS_ZERO /\
   GenC10.stress_always_le = STRESS_ALWAYS /\ GenC10.stress_cmp_le = STRESS_LE /\ GenC10.stress_seed = STRESS_SEED.
 Proof. exact gen_stress_ok. Qed.
